@@ -302,14 +302,13 @@ func (s *Service) AddMachine(ctx context.Context, specName, id, nodeName string,
 		},
 	}
 
+	// Hold the lock until the machine has been written: The crew
+	// in memory should change only together with (and in the same
+	// order as) the stored crew.
 	c.Lock()
-	_, have := c.Machines[id]
-	if !have {
-		c.Machines[id] = &m
-	}
-	c.Unlock()
+	defer c.Unlock()
 
-	if have {
+	if _, have := c.Machines[id]; have {
 		return Exists
 	}
 
@@ -320,7 +319,13 @@ func (s *Service) AddMachine(ctx context.Context, specName, id, nodeName string,
 		Bs:         m.State.Bs,
 	}
 
-	return s.store.WriteState(ctx, s.crewName, []*MachineState{&ms})
+	if err := s.store.WriteState(ctx, s.crewName, []*MachineState{&ms}); err != nil {
+		return err
+	}
+
+	c.Machines[id] = &m
+
+	return nil
 }
 
 func (s *Service) RemMachine(ctx context.Context, mid string) error {
@@ -331,11 +336,18 @@ func (s *Service) RemMachine(ctx context.Context, mid string) error {
 
 	// ToDo: Remove timers?
 
+	// As in AddMachine: first the store, then memory, all with
+	// the lock.
 	s.crew.Lock()
-	delete(s.crew.Machines, mid)
-	s.crew.Unlock()
+	defer s.crew.Unlock()
 
-	return s.store.WriteState(ctx, s.crewName, []*MachineState{&ms})
+	if err := s.store.WriteState(ctx, s.crewName, []*MachineState{&ms}); err != nil {
+		return err
+	}
+
+	delete(s.crew.Machines, mid)
+
+	return nil
 }
 
 func (s *Service) Route(ctx context.Context, msg interface{}) ([]string, bool, error) {
